@@ -5,7 +5,7 @@
    [fb] = true gives the same specification over the code's resolution (suffix fallback): the driver uses it to
    tell the known deviation "a row whose path leads nowhere is keyed by the top-level column named like the leaf"
    from any other disagreement. *)
-From SV Require Export Model.AnalyticPath Spec.AnalyticSpec.
+From SV Require Export Model.AnalyticPath Spec.AnalyticSpec Spec.AnalyticEpochSpec.
 
 (* the partition value the statement means *)
 Definition an_path_val (r : anrow) (key : bytes) : aval := an_resolve false r key.
@@ -18,3 +18,10 @@ Definition an_nmwithin (fb : bool) (q : amquery) (h : list anrow) : bool := an_m
 (* key-level check (P lines): the partition key of one row for a list of path keys *)
 Definition an_npkey (fb : bool) (keys : list bytes) (r : anrow) : bytes :=
   an_key_of_vals (map (an_resolve fb r) keys).
+
+(* the same on EVERY history, partitions above the cap included (Spec/AnalyticEpochSpec.v), over the rows resolved
+   the way [fb] says; and the rows on which some item fails WHEN while its partition is evicted *)
+Definition an_nxmspec (fb : bool) (q : amquery) (h : list anrow) : list (option (list aout)) :=
+  an_xmspec_query false q (an_nflat fb q h).
+
+Definition an_nxmevicted (fb : bool) (q : amquery) (h : list anrow) : list bool := an_xmevicted q (an_nflat fb q h).
